@@ -14,7 +14,7 @@ ENDBLOCK_FORMULAS = dict(
                   "P_C07_SetRequest", "P_C07_SetsOnlyByTick", "P_C07_Pruning", "P_C07_GovResolved"])
 
 STAKES = {"Stake2": {"o1": 4, "o2": 1}, "Stake3": {"o1": 5, "o2": 4, "o3": 1}, "StakeEq": {"o1": 1, "o2": 1, "o3": 1},
-          "StakeBig": {"o1": 100, "o2": 60, "o3": 45}}
+          "StakeBig": {"o1": 500, "o2": 300, "o3": 225}}
 O1, O2, O3 = ["o1"], ["o1", "o2"], ["o1", "o2", "o3"]
 GOVKINDS = ["dep", "YY", "NN", "NY", "VV", "AA", "-A", "AY", "--", "W", "bad", "exp"]   # vote patterns of the two validators, see EndBlock.tla
 GOVFEW = ["dep", "YY", "AA", "exp"]
@@ -45,10 +45,10 @@ C_BATCH = consts(O2, kinds=["batch"], sets=2, batch=1, removable=["o2"])        
 C_PRUNE = consts(O2, sets=3, obs=[1, 2, 3], removable=["o2"])                          # oracle sets: slashing, refresh, pruning
 C_GOV = consts(O1, sets=1, propkind=GOVKINDS, props=1)                                 # gov end-blocker: every vote pattern
 C_GOV2 = consts(O1, sets=1, propkind=GOVFEW, props=2)                                  # two proposals interleaved
-# small stake changes between block ends (real MsgAddDelegate): +1 unit on 100/60 moves the normalised powers by
-# 0.47%, +24 by 9.78%, +25 by 10.14% (oracle-set request threshold 10%)
-C_STAKE = consts(O2, sets=2, adds=[1, 24, 25], maxadds=1)
-C_STAKE2 = consts(O2, sets=2, adds=[1, 24, 25], maxadds=2)
+# small stake changes between block ends (real MsgAddDelegate): +1 unit (100 FX) on 500/300 moves the normalised
+# powers by 0.094% (o1) / 0.156% (o2), +120 on o1 by 9.78%, +126 by 10.2% (oracle-set request threshold 10%)
+C_STAKE = consts(O2, sets=2, adds=[1, 120, 126], maxadds=1)
+C_STAKE2 = consts(O2, sets=2, adds=[1, 120, 126], maxadds=2)
 C_DEV = consts(O2, kinds=["call"], sets=1, call=1)
 # thorough only
 C_BOTH = consts(O2, kinds=["batch", "call"], sets=2, batch=1, call=1, removable=["o2"])   # all three object kinds together
